@@ -260,7 +260,7 @@ def run_rc_property(pid, cfg, tier, seed, t0):
         rp = os.path.join(rundir, 'fail%d.tape' % i)
         lg = os.path.join(rundir, 'log%d.txt' % i)
         cmd = [exe, '--prop', cfg.get('prop', pid), '--tier', tier, '--seed', str(seed * 1000 + i),
-               '--cases', str(tc['cases']), '--max-size', str(tc.get('max_size', 100)), '--scale', str(tc.get('scale', 4)),
+               '--cases', str(max(1, int(tc['cases'] * float(os.environ.get('VERIF_CASES_MULT', '1'))))), '--max-size', str(tc.get('max_size', 100)), '--scale', str(tc.get('scale', 4)),
                '--out', out, '--fp', fp, '--replay-out', rp]
         for o in base_opts:
             cmd += ['--opt', o]
